@@ -1,24 +1,233 @@
 //! C20 — no arithmetic overflow or debug assertion is reachable from font data.
 //!
-//! Same engine, seeds, deviations and drivers as C01 (library `c01`), but this binary is built with
-//! `--profile strict` (overflow-checks + debug-assertions on; `./check C20 …` does that) and runs the
-//! engine in `Mode::C20`: only panics whose payload is an arithmetic overflow / "attempt to …" /
-//! assertion failure are violations, identity = (kind, site file, message class); every other panic
-//! is counted (`non_arithmetic_panics_ignored`) and left to C01/C02, which run in release.
-use c01::engine::{engine_main, EngineConfig, ExtraDriver, Mode};
+//! This binary is built with `--profile strict` (overflow-checks + debug-assertions on; `./check C20 …`
+//! does that) and runs two stages with one classifier — only panics whose payload is an arithmetic
+//! overflow / "attempt to …" / assertion failure are C20 violations, identity
+//! `overflow <repo file> fn=<innermost repo function>: <message class>`; every other panic, timeout or
+//! abort is counted as ignored (those are C01/C02's verdicts, taken in release builds):
+//!
+//! * stage 1: the C01 engine (library `c01`, `Mode::C20`): read-fonts parsing, generic traversal and
+//!   the typed read-fonts drivers over the X3 deviation space;
+//! * stage 2: the C02 drivers (library `c02`): skrifa drawing / metrics / hinting over the corpus
+//!   (plan "strict": sizes {unscaled, 1, 13.5, 65535, 1e9}) and over table deviations, enumerated
+//!   TrueType programs, CFF charstrings, composite-glyph graphs and IFT client tuples, run by c02's
+//!   own supervisor (CPU-time watchdog per call).
+//!
+//! Both libraries re-exec `current_exe()` for their workers (`VERIF_C02_WORKER` / `VERIF_WORKER`), so
+//! `main` dispatches on both before anything else.
+use c01::engine::{engine_body, fn_of, install_fn_hook, site_of, worker_main, EngineConfig, Mode};
+use c02::{CaseOut, Outcome, Phase, SupOpts};
+use serde_json::{json, Value};
+use std::collections::{BTreeMap, HashSet};
+use std::sync::Mutex;
+use vcore::{Run, Tier};
 
-fn main() {
-    if !cfg!(debug_assertions) {
-        // built without the strict profile: the classifier could never fire — machinery error, not a verdict
-        if std::env::var("VERIF_WORKER").is_err() {
-            eprintln!("MACHINERY-ERROR property=C20 binary was not built with --profile strict (debug assertions are off)");
-            std::process::exit(2);
+fn cfg() -> EngineConfig {
+    EngineConfig { property: "C20", mode: Mode::C20, extra: vec![] }
+}
+
+/// c02 worker body: run the case, then attach the innermost repository function to every caught
+/// panic (resolved once per panic site by c01's backtrace hook) so that identities can name it.
+fn c02_case(spec: &Value) -> CaseOut {
+    static HOOK: std::sync::Once = std::sync::Once::new();
+    HOOK.call_once(install_fn_hook);
+    let mut out = c02::run_case(spec);
+    for v in out.viols.iter_mut() {
+        if v.kind == "panic" {
+            let f = fn_of(&v.panic_info());
+            v.what = format!("fn={f};; {}", v.what);
         }
     }
-    #[allow(unused_mut)]
-    let mut extra: Vec<ExtraDriver> = vec![];
-    // C02 drivers plug in here: push ExtraDriver { name, run: fn(&[u8], &mut Walker), deviate_whole_file }
-    // entries that call the c02 library's skrifa / IFT drivers on the whole-file bytes; they are run on
-    // every whole-file seed case inside the same supervised workers, with the same classifier.
-    engine_main(EngineConfig { property: "C20", mode: Mode::C20, extra })
+    out
+}
+
+fn main() {
+    if c02::sup::is_worker() {
+        c02::sup::worker_main(&c02_case);
+    }
+    if std::env::var("VERIF_WORKER").is_ok() {
+        worker_main(cfg());
+    }
+    if !cfg!(debug_assertions) {
+        // built without the strict profile: the classifier could never fire — machinery error, not a verdict
+        eprintln!("MACHINERY-ERROR property=C20 binary was not built with --profile strict (debug assertions are off)");
+        std::process::exit(2);
+    }
+    vcore::main_for("C20", body)
+}
+
+fn body(run: &Run, replay: Option<&Value>) {
+    let quick = run.tier == Tier::Quick;
+    if let Some(case) = replay {
+        if case["driver"].is_string() {
+            // a stage-2 (c02) case
+            let c = c02::strip_replay_fields(case);
+            let opts = SupOpts { workers: 1, watchdog_ms: 10_000, chunk: 1 };
+            let mut st = Stage2::default();
+            run_cases(run, "replay", 0, 1, &|_| c.clone(), &opts, &mut st);
+        } else {
+            engine_body(run, replay, &cfg());
+        }
+        return;
+    }
+    // ---- stage 1: the C01 engine. Its deadline is shortened so that stage 2 fits in the tier budget
+    if std::env::var("C01_DEADLINE").is_err() {
+        std::env::set_var("C01_DEADLINE", if quick { "24" } else { "900" });
+    }
+    run.bound("stage1_deadline_s", json!(std::env::var("C01_DEADLINE").unwrap_or_default()));
+    engine_body(run, None, &cfg());
+
+    // ---- stage 2: the C02 drivers in the strict profile
+    run.assume("stage 2 trusts c02's supervisor (worker-side CPU-time watchdog, SIGABRT marker) to attribute results to cases; timeouts, aborts and non-arithmetic panics seen there are counted, not judged (C02 judges them in release)");
+    stage2(run, quick);
+}
+
+#[derive(Default)]
+struct Stage2 {
+    all: HashSet<u64>,
+    nt: HashSet<u64>,
+    counters: BTreeMap<String, u64>,
+    ignored_panics: u64,
+    ignored_failures: u64,
+    arith: u64,
+}
+
+/// Run cases lo..hi of a phase under c02's supervisor and classify the results.
+fn run_cases(run: &Run, label: &str, lo: u64, hi: u64, get: &(dyn Fn(u64) -> Value + Sync), opts: &SupOpts, st: &mut Stage2) {
+    let agg = Mutex::new(std::mem::take(st));
+    let res = c02::sup::supervise_resumable(
+        hi - lo,
+        &|i| get(lo + i).to_string(),
+        opts,
+        &|i, outcome| {
+            let case = get(lo + i);
+            match outcome {
+                Outcome::Done(out) => {
+                    run.evals(out.evals.max(1));
+                    run.trans(out.calls);
+                    let mut g = agg.lock().unwrap();
+                    g.all.extend(out.digests.iter().copied());
+                    g.nt.extend(out.nontrivial.iter().copied());
+                    for (k, n) in &out.counters {
+                        *g.counters.entry(format!("c02.{label}.{k}")).or_insert(0) += n;
+                    }
+                    for v in &out.viols {
+                        if v.kind == "bad-case" {
+                            run.machinery_error(&format!("bad c02 case {case}: {}", v.what));
+                            continue;
+                        }
+                        let p = v.panic_info();
+                        if v.kind == "panic" && p.is_arith_or_debug_assert() {
+                            g.arith += 1;
+                            let (f, what) = match v.what.strip_prefix("fn=").and_then(|r| r.split_once(";; ")) {
+                                Some((f, w)) => (f.to_string(), w.to_string()),
+                                None => (String::new(), v.what.clone()),
+                            };
+                            let id = format!("overflow {} fn={}: {}", site_of(&p), f, p.kind());
+                            let narrowed = c02::narrow(&case, v.sub);
+                            drop(g);
+                            run.violation(
+                                &id,
+                                &format!("overflow at {}:{} — {} (reached through c02 driver {}; {})", p.file, p.line, p.message, v.op, what),
+                                narrowed,
+                            );
+                            g = agg.lock().unwrap();
+                        } else {
+                            g.ignored_panics += 1;
+                        }
+                    }
+                }
+                Outcome::Failed(f) => {
+                    run.eval();
+                    let mut g = agg.lock().unwrap();
+                    g.ignored_failures += 1;
+                    let driver = case["driver"].as_str().unwrap_or("?").to_string();
+                    *g.counters.entry(format!("c02.{label}.worker_failures_ignored[{}]", c02::failure_identity(&driver, &f))).or_insert(0) += 1;
+                }
+            }
+        },
+        &|_, case_json, f| c02::resume_batch(case_json, f),
+    );
+    *st = agg.into_inner().unwrap();
+    if let Err(e) = res {
+        run.machinery_error(&format!("c02 supervisor: {e}"));
+    }
+}
+
+fn stage2(run: &Run, quick: bool) {
+    // reduced bounds for the strict profile (2-3x slower than release); all reported in the evidence
+    if quick {
+        if std::env::var("C02_DEV_BYTES").is_err() {
+            std::env::set_var("C02_DEV_BYTES", "24");
+        }
+    }
+    let mut phases: Vec<Phase> = match c02::phases(quick) {
+        Ok(p) => p,
+        Err(e) => {
+            run.machinery_error(&format!("c02 phases: {e}"));
+            return;
+        }
+    };
+    // the corpus phase runs under plan "strict" (extreme sizes) instead of C02's release plan
+    if let Some(p) = phases.iter_mut().find(|p| p.label == "corpus") {
+        let cases = c02::gen_corpus_cases("strict");
+        p.n = cases.len() as u64;
+        p.sample = cases.first().cloned().unwrap_or(Value::Null);
+        p.bounds = vec![("corpus.plan".into(), c02::skdrv::Plan::named("strict").map(|p| p.describe()).unwrap_or(Value::Null))];
+        p.get = Box::new(move |i| cases[i as usize].clone());
+    }
+    let opts = SupOpts {
+        workers: std::env::var("VERIF_THREADS").ok().and_then(|s| s.parse().ok()).unwrap_or(16),
+        watchdog_ms: if quick { 4_000 } else { 10_000 },
+        chunk: 4,
+    };
+    // wall budget of the whole run (stage 1 included); phases are executed in slices so that the budget
+    // can be honoured between slices (a cut is reported as a cap, never as exhaustive)
+    let budget_s: f64 = std::env::var("C20_BUDGET").ok().and_then(|s| s.parse().ok()).unwrap_or(if quick { 53.0 } else { 1750.0 });
+    run.bound("c02.watchdog_cpu_ms_per_call", json!(opts.watchdog_ms));
+    run.bound("c02.total_wall_budget_s", json!(budget_s));
+    let only: Option<Vec<String>> = std::env::var("C02_ONLY").ok().map(|s| s.split(',').map(|x| x.to_string()).collect());
+    let mut st = Stage2::default();
+    // order: cheap, finding-rich phases first
+    let order = ["corpus", "cffprog", "glyfgraph", "deviations", "ttprog", "ift"];
+    phases.sort_by_key(|p| order.iter().position(|o| *o == p.label).unwrap_or(99));
+    for ph in &phases {
+        if let Some(o) = &only {
+            if !o.iter().any(|x| x == ph.label) {
+                continue;
+            }
+        }
+        for (k, v) in &ph.bounds {
+            run.bound(&format!("c02.{k}"), v.clone());
+        }
+        run.sample(ph.sample.clone());
+        run.count(&format!("c02.{}.cases_enumerated", ph.label), ph.n);
+        let t0 = std::time::Instant::now();
+        let slices = 8u64.min(ph.n.max(1));
+        let mut done = 0u64;
+        for s in 0..slices {
+            if run.elapsed() > budget_s {
+                break;
+            }
+            let lo = ph.n * s / slices;
+            let hi = ph.n * (s + 1) / slices;
+            if hi > lo {
+                run_cases(run, ph.label, lo, hi, &*ph.get, &SupOpts { chunk: ph.chunk, ..opts.clone() }, &mut st);
+                done = hi;
+            }
+        }
+        run.count(&format!("c02.{}.cases_executed", ph.label), done);
+        run.extra(&format!("c02.wall_s.{}", ph.label), json!(t0.elapsed().as_secs_f64()));
+        eprintln!("[c20] stage 2 {}: {} of {} cases in {:.1}s", ph.label, done, ph.n, t0.elapsed().as_secs_f64());
+        if done < ph.n {
+            run.cap_hit(&format!("stage 2 phase {}: wall budget of {budget_s:.0} s reached after {done} of {} cases (cases are taken in enumeration order)", ph.label, ph.n));
+        }
+    }
+    run.observe_many(&st.all, &st.nt);
+    for (k, n) in &st.counters {
+        run.count(k, *n);
+    }
+    run.count("c02.arithmetic_panics", st.arith);
+    run.count("c02.non_arithmetic_panics_ignored", st.ignored_panics);
+    run.count("c02.worker_failures_ignored", st.ignored_failures);
 }
